@@ -29,13 +29,13 @@ NUnk(pr) == 2 * pr.s * NSeg(pr)
 (* ---------------------------- knot times ------------------------------ *)
 \* Knot(t0, T, i) for i in 0..N : start time plus the first i durations
 Knot(t0, T, i) == RAdd(t0, RSum(SubSeq(T, 1, i)))
-Knots(t0, T) == TLCEval([j \in 1..(Len(T) + 1) |-> Knot(t0, T, j - 1)])
-DursOfPoints(tp) == TLCEval([i \in 1..(Len(tp) - 1) |-> RSub(tp[i + 1], tp[i])])
+Knots(t0, T) == Force([j \in 1..(Len(T) + 1) |-> Knot(t0, T, j - 1)])
+DursOfPoints(tp) == Force([i \in 1..(Len(tp) - 1) |-> RSub(tp[i + 1], tp[i])])
 (* ------------------------ the defining equations ---------------------- *)
 \* unknown c[i][k] (segment i in 1..N, power k in 0..2s-1) has index (i-1)*2s + k + 1
 \* row that evaluates the d-th derivative of segment i at local time tau
 DRow(s, N, i, tau, d) ==
-    TLCEval([j \in 1..(2 * s * N) |->
+    Force([j \in 1..(2 * s * N) |->
         LET seg == ((j - 1) \div (2 * s)) + 1
             k == (j - 1) - (seg - 1) * 2 * s
         IN IF seg # i \/ k < d THEN Zero
@@ -64,8 +64,8 @@ SysRow(s, T, r, shift, only) ==
             IN IF shift = 0 THEN VSub(DRow(s, N, i, T[i], d), DRow(s, N, i + 1, Zero, d))
                ELSE IF On(i) THEN DRow(s, N, i, T[i], d + 1) ELSE Z
 
-DefSystem(s, T) == TLCEval([r \in 1..(2 * s * Len(T)) |-> SysRow(s, T, r, 0, 0)])
-DefSystemDT(s, T, i) == TLCEval([r \in 1..(2 * s * Len(T)) |-> SysRow(s, T, r, 1, i)])
+DefSystem(s, T) == Force([r \in 1..(2 * s * Len(T)) |-> SysRow(s, T, r, 0, 0)])
+DefSystemDT(s, T, i) == Force([r \in 1..(2 * s * Len(T)) |-> SysRow(s, T, r, 1, i)])
 
 \* right-hand side, one column per coordinate
 DefRhs(pr) ==
@@ -82,9 +82,9 @@ MinCoeffs(pr) == Solve(DefSystem(pr.s, pr.T), DefRhs(pr))
 
 (* --------------------- reading a coefficient matrix ------------------- *)
 \* polynomial (ascending powers of local time) of segment i, coordinate col
-SegPoly(C, s, i, col) == TLCEval([k \in 1..(2 * s) |-> C[(i - 1) * 2 * s + k][col]])
+SegPoly(C, s, i, col) == Force([k \in 1..(2 * s) |-> C[(i - 1) * 2 * s + k][col]])
 \* value of the d-th derivative of segment i at local time tau, all coordinates
-SegEval(C, s, i, tau, d) == TLCEval([col \in 1..Len(C[1]) |-> PolyEvalD(SegPoly(C, s, i, col), tau, d)])
+SegEval(C, s, i, tau, d) == Force([col \in 1..Len(C[1]) |-> PolyEvalD(SegPoly(C, s, i, col), tau, d)])
 (* -------- scaled residuals of the defining equations (DESIGN s4) ------ *)
 Tiny == RPow("10", -200)
 \* position-scale of coordinate col: what rounding errors of a solve are proportional to
@@ -103,7 +103,7 @@ ScaledRes(terms, rhs, nat) ==
     [num |-> RAbs(RSub(RSum(terms), rhs)), den |-> RAdd(RAbsSum(terms), RAbs(rhs)), nat |-> nat]
 ResVal(r, phi) == RDiv(r.num, RMax(RMax(r.den, RMul(phi, r.nat)), Tiny))
 \* monomials of the d-th derivative of polynomial c at tau
-Monos(c, tau, d) == TLCEval([k \in 1..(Len(c) - d) |-> RMul(RMul(RInt(FF(k - 1 + d, d)), c[k + d]), RPow(tau, k - 1))])
+Monos(c, tau, d) == Force([k \in 1..(Len(c) - d) |-> RMul(RMul(RInt(FF(k - 1 + d, d)), c[k + d]), RPow(tau, k - 1))])
 ResInterpL(pr, C, i, col, ps) == ScaledRes(<<C[(i - 1) * 2 * pr.s + 1][col]>>, pr.P[i][col], ps[col])
 ResInterpR(pr, C, i, col, ps) == ScaledRes(Monos(SegPoly(C, pr.s, i, col), pr.T[i], 0), pr.P[i + 1][col], ps[col])
 ResBcS(pr, C, d, col, ps) ==
@@ -119,7 +119,7 @@ ResCont(pr, C, i, d, col, ps) ==
 \* every residual of a coefficient matrix, as records [kind, i, d, col, res]
 AllResiduals(pr, C) ==
     LET s == pr.s  N == NSeg(pr)  D == Dim(pr)
-        ps == TLCEval([col \in 1..D |-> PScale(pr, col)])
+        ps == Force([col \in 1..D |-> PScale(pr, col)])
         il == [q \in 1..(N * D) |-> LET i == ((q - 1) \div D) + 1  col == q - (i - 1) * D
                  IN [kind |-> "interpL", i |-> i, d |-> 0, col |-> col, res |-> ResInterpL(pr, C, i, col, ps)]]
         ir == [q \in 1..(N * D) |-> LET i == ((q - 1) \div D) + 1  col == q - (i - 1) * D
@@ -135,7 +135,7 @@ AllResiduals(pr, C) ==
                      d == (r \div D) + 1
                      col == r - (d - 1) * D + 1
                  IN [kind |-> "cont", i |-> i, d |-> d, col |-> col, res |-> ResCont(pr, C, i, d, col, ps)]]
-    IN il \o ir \o bs \o be \o ct
+    IN Force(il \o ir \o bs \o be \o ct)
 
 (* -------------------------------- energy ------------------------------ *)
 \* integral over the whole duration of the squared s-th derivative, summed over coordinates
@@ -154,14 +154,14 @@ EnergyOfCoord(C, s, T, col) == RSum([i \in 1..Len(T) |-> SegEnergy(SegPoly(C, s,
 \* partial derivatives of Energy with coefficients resp. durations held fixed
 \* dE/dc[i][k] = 2 * integral( q(t) * ff(k,s) t^(k-s) ),  dE/dT_i = |x_i^(s)(T_i)|^2
 EnergyPartialC(C, s, T) ==
-    [r \in 1..Len(C) |-> [col \in 1..Len(C[1]) |->
+    Force([r \in 1..Len(C) |-> [col \in 1..Len(C[1]) |->
         LET i == ((r - 1) \div (2 * s)) + 1
             k == (r - 1) - (i - 1) * 2 * s
             q == PolyDeriv(SegPoly(C, s, i, col), s)
             mono == [j \in 1..(k - s + 1) |-> IF j = k - s + 1 THEN RInt(FF(k, s)) ELSE Zero]
-        IN IF k < s THEN Zero ELSE RMul("2", PolyInt(PolyMul(q, mono), T[i]))]]
+        IN IF k < s THEN Zero ELSE RMul("2", PolyInt(PolyMul(q, mono), T[i]))]])
 EnergyPartialT(C, s, T) ==
-    [i \in 1..Len(T) |-> RSum([col \in 1..Len(C[1]) |-> RSq(PolyEvalD(SegPoly(C, s, i, col), T[i], s))])]
+    Force([i \in 1..Len(T) |-> RSum([col \in 1..Len(C[1]) |-> RSq(PolyEvalD(SegPoly(C, s, i, col), T[i], s))])])
 
 (* -------- adjoint of the construction map (implicit differentiation) -- *)
 (* Inputs (P, T, BS, BE) -> (coefficients C, durations T).  For an upstream *)
@@ -171,76 +171,77 @@ EnergyPartialT(C, s, T) ==
 (***************************************************************************)
 Adjoint(pr, C, gC, gT) ==
     LET s == pr.s  N == NSeg(pr)  D == Dim(pr)
-        A == TLCEval(DefSystem(s, pr.T))
-        lam == TLCEval(Solve(Transpose(A), gC))
+        A == Force(DefSystem(s, pr.T))
+        lam == Force(Solve(Transpose(A), gC))
         gradP == [j \in 1..(N + 1) |-> [col \in 1..D |->
                     RAdd(IF j <= N THEN lam[RowInterpL(s, N, j)][col] ELSE Zero,
                          IF j >= 2 THEN lam[RowInterpR(s, N, j - 1)][col] ELSE Zero)]]
         gradT == [i \in 1..N |->
-                    LET dAC == TLCEval(MatMul(DefSystemDT(s, pr.T, i), C))
+                    LET dAC == Force(MatMul(DefSystemDT(s, pr.T, i), C))
                     IN RSub(gT[i], RSum([col \in 1..D |-> RDot(Col(lam, col), Col(dAC, col))]))]
-    IN [points |-> gradP,
+    IN Force([points |-> gradP,
         times |-> gradT,
         bs |-> [d \in 1..(s - 1) |-> lam[RowBcS(s, N, d)]],
-        be |-> [d \in 1..(s - 1) |-> lam[RowBcE(s, N, d)]]]
+        be |-> [d \in 1..(s - 1) |-> lam[RowBcE(s, N, d)]]])
 
 (***************************************************************************)
 (* The same adjoint together with S = sum_j |J_jk| |g_j|, the magnitude    *)
 (* each result is assembled from (DESIGN s4, gradient tolerance).  Uses    *)
 (* the explicit inverse: lambda = A^-T gC, lambdaAbs = |A^-1|^T |gC|.      *)
 (***************************************************************************)
-MAbs(M) == TLCEval([i \in 1..Len(M) |-> [j \in 1..Len(M[i]) |-> RAbs(M[i][j])]])
-Identity(n) == TLCEval([i \in 1..n |-> VUnit(n, i)])
+MAbs(M) == Force([i \in 1..Len(M) |-> [j \in 1..Len(M[i]) |-> RAbs(M[i][j])]])
+Identity(n) == Force([i \in 1..n |-> VUnit(n, i)])
 \* the parts that depend on the problem only (computed once per build, reused by every propagation)
 AdjointPre(pr) ==
     LET s == pr.s  N == NSeg(pr)  n == 2 * s * N
-        A == TLCEval(DefSystem(s, pr.T))
-        Ainv == TLCEval(Solve(A, Identity(n)))
-        C == TLCEval(MatMul(Ainv, DefRhs(pr)))
-        Cabs == TLCEval(MAbs(C))
-    IN [AinvT |-> TLCEval(Transpose(Ainv)), AinvTa |-> TLCEval(MAbs(Transpose(Ainv))), C |-> C,
-        dAC |-> TLCEval([i \in 1..N |-> MatMul(DefSystemDT(s, pr.T, i), C)]),
-        dACa |-> TLCEval([i \in 1..N |-> MatMul(MAbs(DefSystemDT(s, pr.T, i)), Cabs)])]
-AdjointWith(pr, pre, gC, gT) ==
-    LET s == pr.s  N == NSeg(pr)  D == Dim(pr)
-        lam == TLCEval(MatMul(pre.AinvT, gC))
-        lamA == TLCEval(MatMul(pre.AinvTa, MAbs(gC)))
+        A == Force(DefSystem(s, pr.T))
+        Ainv == Force(Solve(A, Identity(n)))
+        C == Force(MatMul(Ainv, DefRhs(pr)))
+        Cabs == Force(MAbs(C))
+    IN Force([AinvT |-> Force(Transpose(Ainv)), AinvTa |-> Force(MAbs(Transpose(Ainv))), C |-> C,
+        dAC |-> Force([i \in 1..N |-> MatMul(DefSystemDT(s, pr.T, i), C)]),
+        dACa |-> Force([i \in 1..N |-> MatMul(MAbs(DefSystemDT(s, pr.T, i)), Cabs)])])
+AdjointWith(pr, pre, gC0, gT0) ==
+    LET gC == Force(gC0)  gT == Force(gT0)       \* (operator arguments are passed by name: force them once)
+        s == pr.s  N == NSeg(pr)  D == Dim(pr)
+        lam == Force(MatMul(pre.AinvT, gC))
+        lamA == Force(MatMul(pre.AinvTa, MAbs(gC)))
         pt(L, j, col) == RAdd(IF j <= N THEN L[RowInterpL(s, N, j)][col] ELSE Zero,
                               IF j >= 2 THEN L[RowInterpR(s, N, j - 1)][col] ELSE Zero)
         tm(i) == [val |-> RSub(gT[i], RSum([col \in 1..D |-> RDot(Col(lam, col), Col(pre.dAC[i], col))])),
                   mag |-> RAdd(RAbs(gT[i]), RSum([col \in 1..D |-> RDot(Col(lamA, col), Col(pre.dACa[i], col))]))]
-        tms == TLCEval([i \in 1..N |-> tm(i)])
+        tms == Force([i \in 1..N |-> tm(i)])
         \* natural scales (floors for S where the exact Jacobian is structurally zero but the result is assembled from
         \* cancelling terms): a coefficient c_k has units position / time^k
         Tmin == LET F[i \in 0..N] == IF i = 0 THEN pr.T[1] ELSE RMin(F[i - 1], pr.T[i]) IN F[N]
         Tmax == RMaxSeq(pr.T)
         kOf(r) == (r - 1) - ((r - 1) \div (2 * s)) * 2 * s
         wC(col, e) == RSum([r \in 1..Len(gC) |-> RMul(RAbs(gC[r][col]), RPow(Tmin, -(kOf(r) + e)))])    \* sum |g| / Tmin^(k+e)
-        natP == TLCEval([col \in 1..D |-> wC(col, 0)])
-        natT == TLCEval(RSum([col \in 1..D |-> RMul(PScale(pr, col), wC(col, 1))]))
+        natP == Force([col \in 1..D |-> wC(col, 0)])
+        natT == Force(RSum([col \in 1..D |-> RMul(PScale(pr, col), wC(col, 1))]))
         Phi == RPow("10", -6)
         fl(S, nat) == RMax(S, RMul(Phi, nat))
-    IN [points |-> [j \in 1..(N + 1) |-> [col \in 1..D |-> pt(lam, j, col)]],
+    IN Force([points |-> [j \in 1..(N + 1) |-> [col \in 1..D |-> pt(lam, j, col)]],
         pointsS |-> [j \in 1..(N + 1) |-> [col \in 1..D |-> fl(pt(lamA, j, col), natP[col])]],
         times |-> [i \in 1..N |-> tms[i].val],
         timesS |-> [i \in 1..N |-> fl(tms[i].mag, RAdd(RAbs(gT[i]), natT))],
         bs |-> [d \in 1..(s - 1) |-> lam[RowBcS(s, N, d)]],
         bsS |-> [d \in 1..(s - 1) |-> [col \in 1..D |-> fl(lamA[RowBcS(s, N, d)][col], RMul(natP[col], RPow(Tmax, d)))]],
         be |-> [d \in 1..(s - 1) |-> lam[RowBcE(s, N, d)]],
-        beS |-> [d \in 1..(s - 1) |-> [col \in 1..D |-> fl(lamA[RowBcE(s, N, d)][col], RMul(natP[col], RPow(Tmax, d)))]]]
+        beS |-> [d \in 1..(s - 1) |-> [col \in 1..D |-> fl(lamA[RowBcE(s, N, d)][col], RMul(natP[col], RPow(Tmax, d)))]]])
 AdjointS(pr, C, gC, gT) == AdjointWith(pr, AdjointPre(pr), gC, gT)
 
 \* magnitudes the energy partials are assembled from (same formulas on absolute values)
 EnergyPartialCAbs(C, s, T) ==
-    [r \in 1..Len(C) |-> [col \in 1..Len(C[1]) |->
+    Force([r \in 1..Len(C) |-> [col \in 1..Len(C[1]) |->
         LET i == ((r - 1) \div (2 * s)) + 1
             k == (r - 1) - (i - 1) * 2 * s
             q == PolyDeriv(SegPoly(C, s, i, col), s)
             qa == [j \in 1..Len(q) |-> RAbs(q[j])]
             mono == [j \in 1..(k - s + 1) |-> IF j = k - s + 1 THEN RInt(FF(k, s)) ELSE Zero]
-        IN IF k < s THEN Zero ELSE RMul("2", PolyInt(PolyMul(qa, mono), T[i]))]]
+        IN IF k < s THEN Zero ELSE RMul("2", PolyInt(PolyMul(qa, mono), T[i]))]])
 EnergyPartialTAbs(C, s, T) ==
-    [i \in 1..Len(T) |-> RSum([col \in 1..Len(C[1]) |-> RSq(PolyAbsEval(PolyDeriv(SegPoly(C, s, i, col), s), T[i]))])]
+    Force([i \in 1..Len(T) |-> RSum([col \in 1..Len(C[1]) |-> RSq(PolyAbsEval(PolyDeriv(SegPoly(C, s, i, col), s), T[i]))])])
 
 \* total derivative of the energy w.r.t. the inputs
 EnergyGrad(pr, C) == Adjoint(pr, C, EnergyPartialC(C, pr.s, pr.T), EnergyPartialT(C, pr.s, pr.T))
@@ -255,13 +256,13 @@ ScaleSpace(pr, a) == [pr EXCEPT !.P = [j \in 1..Len(pr.P) |-> VScale(a, pr.P[j])
 ScaleTime(pr, a) == [pr EXCEPT !.T = VScale(a, pr.T),
                                !.BS = [d \in 1..Len(pr.BS) |-> VScale(RPow(a, -d), pr.BS[d])],
                                !.BE = [d \in 1..Len(pr.BE) |-> VScale(RPow(a, -d), pr.BE[d])]]
-Rev(q) == TLCEval([i \in 1..Len(q) |-> q[Len(q) + 1 - i]])
-Reverse(pr) == [pr EXCEPT !.T = Rev(pr.T), !.P = Rev(pr.P),
+Rev(q) == Force([i \in 1..Len(q) |-> q[Len(q) + 1 - i]])
+ReverseProblem(pr) == [pr EXCEPT !.T = Rev(pr.T), !.P = Rev(pr.P),
                           !.BS = [d \in 1..Len(pr.BE) |-> VScale(RPow("-1", d), pr.BE[d])],
                           !.BE = [d \in 1..Len(pr.BS) |-> VScale(RPow("-1", d), pr.BS[d])]]
 \* coefficients of t |-> x(T_i - t) segment-wise, segments in reverse order: the time-reversed trajectory
 ReversePoly(c, Ti) ==
-    \* c(Ti - t) = sum_k c_k (Ti - t)^k ; coefficient of t^m is (-1)^m sum_{k>=m} c_k C(k,m) Ti^(k-m)
+    \* (forced below) c(Ti - t) = sum_k c_k (Ti - t)^k ; coefficient of t^m is (-1)^m sum_{k>=m} c_k C(k,m) Ti^(k-m)
     [m1 \in 1..Len(c) |->
         LET m == m1 - 1
         IN RMul(RPow("-1", m),
@@ -270,9 +271,9 @@ ReversePoly(c, Ti) ==
                         IN RMul(RMul(c[k + 1], RFrac(FF(k, m), Fact(m))), RPow(Ti, k - m))]))]
 ReverseCoeffs(C, s, T) ==
     LET N == Len(T)
-    IN [r \in 1..Len(C) |-> [col \in 1..Len(C[1]) |->
+    IN Force([r \in 1..Len(C) |-> [col \in 1..Len(C[1]) |->
           LET i == ((r - 1) \div (2 * s)) + 1
               k == (r - 1) - (i - 1) * 2 * s
               src == N + 1 - i
-          IN ReversePoly(SegPoly(C, s, src, col), T[src])[k + 1]]]
+          IN ReversePoly(SegPoly(C, s, src, col), T[src])[k + 1]]])
 =============================================================================
